@@ -444,6 +444,62 @@ func c20(e *Env) {
 		}
 		e.Res.Stats["oracle.c20.consistency_checked"]++
 	}
+	// the numeric options are honoured as well: that many connections per node, kept alive by a
+	// heartbeat every interval for as long as the node answers - however close to the idle time-out
+	// the (valid) interval is
+	if dim == 4 && !w.Stopped() {
+		hbI, err1 := time.ParseDuration(cc.opts["heartbeat-interval"])
+		idle, err2 := time.ParseDuration(cc.opts["idle-timeout"])
+		if err1 != nil || err2 != nil {
+			e.Res.Infra = "harness: cannot parse the durations of an accepted configuration"
+			return
+		}
+		w.Quiesce()
+		pooled := func() []*world.BackendConn {
+			var out []*world.BackendConn
+			for _, bc := range w.Nodes[0].LiveConns() {
+				if bc.Started && !bc.Control {
+					out = append(out, bc)
+				}
+			}
+			return out
+		}
+		w.RunUntil(func() bool { return fmt.Sprint(len(pooled())) == cc.opts["num-conns"] }, 10*time.Second)
+		before := pooled()
+		if fmt.Sprint(len(before)) != cc.opts["num-conns"] {
+			if !w.Stopped() {
+				w.Violate("c20-numeric", "num-conns-not-honoured", fmt.Sprintf("%s: the node has %d pooled connections of the proxy's session", detail, len(before)))
+			}
+			return
+		}
+		t0 := w.Now()
+		span := 3*idle + hbI
+		if span > 5*time.Minute {
+			span = 5 * time.Minute
+		}
+		w.RunUntil(func() bool { return false }, span)
+		if w.Stopped() {
+			return
+		}
+		for _, bc := range before {
+			if bc.Closed {
+				w.Violate("c20-numeric", "healthy-connection-dropped-with-valid-intervals", fmt.Sprintf("%s: %s, on which every heartbeat was answered at once, was closed within %v of idling (heartbeats seen at %v, the idling began at %v)", detail, bc, span, bc.HeartbeatsAt, t0))
+				return
+			}
+			last := t0
+			for _, at := range append(append([]time.Duration(nil), bc.HeartbeatsAt...), w.Now()) {
+				if at < t0 {
+					continue
+				}
+				if at-last > hbI+hbI/10+time.Second {
+					w.Violate("c20-numeric", "heartbeat-interval-not-honoured", fmt.Sprintf("%s: %s saw no heartbeat for %v (heartbeats at %v, idling since %v)", detail, bc, at-last, bc.HeartbeatsAt, t0))
+					return
+				}
+				last = at
+			}
+		}
+		e.Res.Stats["oracle.c20.intervals_and_connection_count_checked"]++
+	}
 	// Run returns 0 when interrupted
 	cancel()
 	w.RunUntil(func() bool { return done }, time.Minute)
